@@ -91,13 +91,20 @@ def assume_map(mapping, prog=None):
     """configuration of an obligation: truth values for branch tests, keyed by the test's source text as it reads today.
     Matching is robust to mirrored comparisons (a > b vs b < a) and to a consistent renaming of the function's local
     variables (names assigned inside the function; parameters and globals must match exactly)."""
+    def strip_not(n):
+        par = False
+        while isinstance(n, ast.UnaryOp) and isinstance(n.op, ast.Not):
+            n, par = n.operand, not par
+        return n, par
+
     keys = []
     for k, v in mapping.items():
         fnq, text = (k if isinstance(k, tuple) else (None, k))
         try:
-            keys.append((fnq, text, _canon_expr(text), v))
+            kn, kpar = strip_not(_canon_expr(text))
+            keys.append((fnq, text, kn, v, kpar, " ".join(ast.unparse(kn).split())))
         except SyntaxError:
-            keys.append((fnq, text, None, v))
+            keys.append((fnq, text, None, v, False, text))
     locals_cache, rename_cache = {}, {}
     used = set()
 
@@ -123,12 +130,24 @@ def assume_map(mapping, prog=None):
             key = " ".join(ast.unparse(node).split())
         except Exception:  # noqa
             return None
-        for fnq, text, knode, v in keys:
+        for fnq, text, knode, v, kpar, ktext in keys:
             if fnq is not None and fnq != fn:
                 continue
             if text == key:
                 used.add(text)
                 return v
+        # the same test under a negation (if not c: B else: A) is the same decision
+        node, tpar = strip_not(node)
+        try:
+            key = " ".join(ast.unparse(node).split())
+        except Exception:  # noqa
+            return None
+        for fnq, text, knode, v, kpar, ktext in keys:
+            if fnq is not None and fnq != fn:
+                continue
+            if ktext == key and isinstance(v, bool):
+                used.add(text)
+                return v != (kpar != tpar)
         if module is None:
             return None
         try:
@@ -136,7 +155,7 @@ def assume_map(mapping, prog=None):
         except Exception:  # noqa
             return None
         ren = locals_of(fn, module, node)
-        for fnq, text, knode, v in keys:
+        for fnq, text, knode, v, kpar, ktext in keys:
             if knode is None or (fnq is not None and fnq != fn):
                 continue
             if isinstance(knode, ast.Name) or (isinstance(knode, ast.UnaryOp) and isinstance(knode.operand, ast.Name)):
@@ -145,7 +164,7 @@ def assume_map(mapping, prog=None):
             if _alpha_match(knode, tnode, ren, m_):
                 rename_cache[fn] = m_
                 used.add(text)
-                return v
+                return (v != (kpar != tpar)) if isinstance(v, bool) else v
         return None
 
     f.used = used
